@@ -1,3 +1,10 @@
+pub mod stark_curve {
+use vstd::prelude::*;
+use crate::prelude::*;
+verus! {
+//@hexconst crates/air/src/layout/mod.rs stark_curve::ALPHA,stark_curve::BETA
+} // verus!
+} // mod stark_curve
 use vstd::prelude::*;
 use crate::prelude::*;
 use crate::hoist::*;
